@@ -103,6 +103,26 @@ pub fn c05(a: &Args, rep: &mut Report) {
         one_c05("C05", &c, rep);
     });
     let tie_calls = rep.counters.get("exact_decisions_total").copied().unwrap_or(0);
+    // (1b) clustered sets of the conditioned domain (the property names them): clusters down to 1e-3 box widths, density
+    // gradients over several decades, a centre inside a shell, and zoom inputs (a compact group with a spacing of 1e-8 .. 1e-4
+    // box widths inside graded shells: cells that see more than a thousand candidates without being clipped by them; judged
+    // by the local reference of p_zoom). Clusters below 1e-3 widths without shells are in the hostile corpus (finding F5).
+    if on("tie") && !is_miri_leg(a) {
+        let cszs: Vec<usize> = if thorough { vec![27, 50, 100, 200, 400, 1000] } else { vec![27, 50, 100, 200] };
+        let m = ncases(a, 600, 12000);
+        run_parallel(rep, m, budget(a, 100., 900.), |k, rep| {
+            let o = GenOpts {
+                sizes: &cszs,
+                families: &["mildcluster", "gradient", "star", "mildcluster"],
+                ..Default::default()
+            };
+            let mut c = gen_case("C05clustered", &a.tier, a.seed, k, &o);
+            with_random_mask("C05mask", a, k, &mut c, 6);
+            one_c05("C05", &c, rep);
+            rep.count("clustered_inputs_run", 1);
+        });
+        zoom_cells(a, rep, "C05", false, 200, 3000, |c, rep| crate::p_zoom::one_zoom("C05", c, rep));
+    }
     // (2) fixed corpus
     let cases = if on("corpus") { corpus(!thorough) } else { vec![] };
     let nc = cases.len() as u64;
